@@ -193,11 +193,12 @@ MUTANTS = [
 """, """        expression_tree = AhbExpressionResolverTransformer().transform(expression_tree)
 """)], ["C02"]),
     ("fixrevert_d2_lowercase_prefix", [(AEE, "return PrefixOperator(prefix_operator.value.upper())", "return PrefixOperator(prefix_operator.value)")], ["C09"]),
-    ("fixrevert_d3_shallow_copy", [(UTIL, "        return copy.deepcopy(tree_result)", "        return tree_result.copy()")], ["C11"]),
+    ("fixrevert_d3_shallow_copy", [(UTIL, "        return _copy_tree(tree_result)\n", "        return tree_result.copy()\n")], ["C11"]),
     ("fixrevert_d9_unicode_modal_mark", [(AEP, "MODAL_MARK: /(?a:M(uss)?|S(oll)?|K(ann)?)/i", "MODAL_MARK: /M(uss)?|S(oll)?|K(ann)?/i")], ["C02"]),
     ("fixrevert_d10_unicode_repeatability", [(CEP, r"REPEATABILITY: /[0-9]+\.{2}[1-9][0-9]*/", r"REPEATABILITY: /\d+\.{2}[1-9]\d*/")], ["C02"]),
     ("fixrevert_d11_keyword_call_on_cache_hit", [(UTIL, """            expression = args[0] if args else next(iter(kwargs.values()), None)
             parsing_logger.log(_CACHE_LOG_LEVEL, "The parsed tree for '%s' has been loaded from the cache", expression)""", """            parsing_logger.log(_CACHE_LOG_LEVEL, "The parsed tree for '%s' has been loaded from the cache", args[0])""")], ["C11", "C02"]),
+    ("fixrevert_d12_deepcopy_recursion", [(UTIL, "        return _copy_tree(tree_result)\n", "        return copy.deepcopy(tree_result)\n")], ["C02"]),
     ("fixrevert_d7_931_midnight", [(TAG, "    if utc_offset == timedelta(0):", "    if utc_offset == timedelta(0) and date_time.time() == time(0, 0, 0):")], ["C20"]),
     ("fixrevert_d8_overflow", [(TAG, "    except OverflowError as overflow_error:", "    except ZeroDivisionError as overflow_error:")], ["C20"]),
     ("fixrevert_d4_soll_flag", [(VAL, """            tasks.append(
@@ -290,7 +291,7 @@ MUTANTS = [
                     sub_tree.children[child_index] = sub_result""", """                if type(child) is type(coro):
                     sub_tree.children[child_index] = sub_result""")], ["C10"]),
     # ---- C11 ---------------------------------------------------------------------------------------------------------
-    ("c11_copy_one_level_only", [(UTIL, "        return copy.deepcopy(tree_result)", "        shallow = tree_result.copy()\n        shallow.children = list(shallow.children)\n        return shallow")], ["C11"]),
+    ("c11_copy_one_level_only", [(UTIL, "        return _copy_tree(tree_result)", "        shallow = tree_result.copy()\n        shallow.children = list(shallow.children)\n        return shallow")], ["C11"]),
     # ---- C13 ---------------------------------------------------------------------------------------------------------
     ("c13_segments_before_subgroups", [(VAL, """        # validation of child_segment_group s
         if segment_group.segment_groups:
@@ -434,7 +435,7 @@ MUTANTS = [
     ),
     (
         "ok_tree_copy_via_pickle",
-        [(UTIL, "        return copy.deepcopy(tree_result)", "        import pickle\n\n        return pickle.loads(pickle.dumps(tree_result))")],
+        [(UTIL, "        return _copy_tree(tree_result)", "        import pickle\n\n        return pickle.loads(pickle.dumps(tree_result))")],
         ["C11", "C01", "C10", "C19"],
     ),
     (
